@@ -11,22 +11,28 @@
 //   - parameters of integer / float64 type are parameters; parameters of pointer, struct or interface type (`image`,
 //     `transform`, the receiver) are OBJECTS: they are not passed, a method call `obj.M(args)` on them is the field `<Type>_M`
 //     applied to the integer / float / slice arguments — a function of its arguments only (the function must not write them);
+//
 //   - `x, _ := pkg.F(args)` / `x := pkg.F(args)` with a pointer result creates a LOCAL OBJECT `x : S` (`env.F args`); a
 //     statement `x.M(args)` on a local object is the state transformer `env.<Type>_M x args : S` (fields are named after the
 //     receiver's TYPE, so renaming a variable keeps the generated text; one field must not stand for two different objects);
+//
 //   - a call that receives a slice-typed local may write it: a statement `F(…, xs, …)` / `obj.M(…, xs, …)` REBINDS every slice
 //     argument (the field returns the new slices after the Go results), `e := F(…, xs)` with an `error` result yields
 //     `(e ≠ nil : Bool, xs')`; arguments that are objects are dropped (the field is closed over them);
+//
 //   - results `(T, error)`: `return nil, <err>` is `none`, `return v, nil` is `some v`;
+//
 //   - `[]bool` / `[][]bool` parameters are `List Bool` / `List (List Bool)` with checked reads (`m[i]`, `row[j]`, `len`); a
 //     `[]bool` local must be a row `row := m[i]`; `var a, b int` declares zero integers; a conditional block with checked
 //     operations is a `Res` of the variables it rebinds (evaluated only when the condition holds);
+//
 //   - statements: `if c { return nil, err }`, `if c { <rebinding statements> }`, `x := e`, `xs[i] = e`, `xs := make([]float64, n)`,
 //     counted loops `for v := a; v < b; v++ | v += k` (any nesting; the body is a lambda, the variables it rebinds are the
 //     loop state), `return`; expressions: integer arithmetic (`/` `%` by non-zero constants), comparisons, `&&` `||`,
 //     `len`, checked `xs[i]`, `float64(i)`, `int(f)`, float `+ - * /` and constants as in `funcn`, `e != nil` of an error local.
 //
 //   - `return F(args)` of an abstract callee with the function's own result types `(T, error)`: the field yields `Option S`;
+//
 //   - a function with ONE object result (`*T`, no error) is `Res S`: `return <object expression>`, where an object expression is a
 //     local object or a call of an abstract callee that yields an object; a method of a call result `F(…).M(…)` is the field `M`
 //     applied to that result (a call chain is a composition of fields).
@@ -45,7 +51,9 @@ import (
 	"golang.org/x/tools/go/packages"
 )
 
-func kfinishOn() bool { return strings.HasPrefix(curModule, "K19b") || strings.HasPrefix(curModule, "K16c") }
+func kfinishOn() bool {
+	return strings.HasPrefix(curModule, "K19b") || strings.HasPrefix(curModule, "K16c")
+}
 
 type kfinBind struct{ v, op string }
 
@@ -59,7 +67,7 @@ type kfinCtx struct {
 	tmp      int
 	depth    int // loop nesting
 	usesS    bool
-	single   bool // the function returns one object (no error): `Res S`
+	single   bool                    // the function returns one object (no error): `Res S`
 	fieldObj map[string]types.Object // method field -> the object it is called on
 }
 
